@@ -50,7 +50,8 @@ class Ctx:
         if signature in self.known:
             self.known_hit.setdefault(signature, 0); self.known_hit[signature] += 1
             return False
-        if len(self.viol) >= 25: self.viol.append(None); return True
+        self.sigcount = getattr(self, "sigcount", {}); self.sigcount[signature] = self.sigcount.get(signature, 0) + 1
+        if self.sigcount[signature] > 3 or len([v for v in self.viol if v]) >= 60: self.viol.append(None); return True
         d = os.path.join(ROOT, "replays", self.pid); os.makedirs(d, exist_ok=True)
         body = json.dumps({"property": self.pid, "signature": signature, "what": what, "seed": self.seed, "tier": self.tier,
                            "case": replay_obj}, indent=1, default=str, sort_keys=True)
@@ -65,6 +66,8 @@ class Ctx:
         nviol = len(self.viol)
         for v in self.viol:
             if v: print("VIOLATION property=%s replay=%s   # %s: %s" % (self.pid, v[2], v[0], str(v[1])[:300]))
+        for sig, k in sorted(getattr(self, "sigcount", {}).items()):
+            print("  violations by signature: %6d  %s" % (k, sig))
         cov = {"states": self.states, "transitions": self.transitions,
                "traces_validated_against_impl": self.traces,
                "evaluations": self.evaluations, "distinct_nontrivial": len(self.distinct),
